@@ -123,6 +123,22 @@ func parse(e *env, b []byte, res *Result) (fr packet.Frame, ok bool) {
 
 // runFrame is the packet loop: Parse, then the processor chosen by PayloadID.
 func runFrame(e *env, c *Case, res *Result) {
+	if c.vec != nil && !c.Mut {
+		if wf := str(c.vec.Aux, "wf"); wf == "perm" || wf == "temp" {
+			// the reply to this packet cannot be written; afterwards the same packet arrives again and the
+			// connection works: the handler must have survived its failed send (a lock left held shows here)
+			e.fc.arm(1000, wf == "temp")
+			runFrame1(e, c, res)
+			e.fc.arm(0, false)
+			if res.Outcome != "" {
+				return
+			}
+		}
+	}
+	runFrame1(e, c, res)
+}
+
+func runFrame1(e *env, c *Case, res *Result) {
 	fr, ok := parse(e, c.Frame, res)
 	if !ok {
 		return
